@@ -1228,6 +1228,9 @@ enum cc_stat cc_slist_iter_add(CC_SListIter *iter, void *element)
 
     iter->current->next = new_node;
 
+    iter->prev    = iter->current;
+    iter->current = new_node;
+
     if (iter->index == iter->list->size)
         iter->list->tail = new_node;
 
@@ -1403,6 +1406,11 @@ enum cc_stat cc_slist_zip_iter_add(CC_SListZipIter *iter, void *e1, void *e2)
 
     iter->l1_current->next = new_node1;
     iter->l2_current->next = new_node2;
+
+    iter->l1_prev    = iter->l1_current;
+    iter->l2_prev    = iter->l2_current;
+    iter->l1_current = new_node1;
+    iter->l2_current = new_node2;
 
     if (iter->index == iter->l1->size)
         iter->l1->tail = new_node1;
